@@ -240,6 +240,81 @@ def suite_antimeridian(ctx):
                 ctx.case("antimeridian", (amode, mode, str(value), container, float(lon.sum())), nontrivial=True, sample={"input": inp, "extent": ext})
 
 
+def suite_wide_and_histories(ctx):
+    """(a) clouds that span more than half the globe WITHOUT coming near the antimeridian are ordinary clouds in every antimeridian mode;
+    (b) one DynamicAreaDefinition frozen several times gives, each time, what a fresh one gives"""
+    from pyresample.geometry import DynamicAreaDefinition
+    r = ctx.rng
+    for _ in range(10 if ctx.quick else 80):
+        n = r.randrange(6, 30)
+        west, east = r.uniform(-160, -95), r.uniform(85, 165)
+        lon = np.array([r.uniform(west, east) for _ in range(n)])
+        lon[0], lon[1] = west, east
+        lat = np.array([r.uniform(-55, 60) for _ in range(n)])
+        for amode in (None, "modify_extents", "modify_crs"):
+            mode, value = r.choice([("resolution", r.choice([0.5, 1.0, 2.0])), ("shape", (r.randrange(3, 14), r.randrange(4, 30)))])
+            container = r.choice(["numpy", "dask", "swath"])
+            inp = {"crs": "EPSG:4326", "antimeridian_mode": amode, "container": container, mode: value if mode != "shape" else list(value),
+                   "lon_range": [float(lon.min()), float(lon.max())], "n": n}
+            try:
+                with warnings.catch_warnings():
+                    warnings.simplefilter("ignore")
+                    kw = {} if amode is None else {"antimeridian_mode": amode}
+                    area = DynamicAreaDefinition("d", "d", "EPSG:4326").freeze(_wrap(container, lon.reshape(1, n).copy(), lat.reshape(1, n).copy()), **kw, **{mode: value})
+                    ix, iy = area.get_array_indices_from_lonlat(lon, lat)
+            except Exception as e:  # noqa
+                ctx.fail("DynamicAreaDefinition.freeze", f"raised {type(e).__name__}: {e}", inp, size=n)
+                continue
+            ext = [float(v) for v in area.area_extent]
+            probs = []
+            if area.crs.prime_meridian.longitude != 0:
+                probs.append("the prime meridian was moved although the data do not come near the antimeridian")
+            if not (ext[0] <= lon.min() + 1e-9 and lon.max() <= ext[2] + 1e-9):
+                probs.append(f"x extent ({ext[0]:.3f}, {ext[2]:.3f}) does not contain the longitudes {lon.min():.3f} .. {lon.max():.3f}")
+            px_ = abs(area.pixel_size_x)
+            if ext[2] - ext[0] > (lon.max() - lon.min()) + 4 * px_ + 1e-6:   # (resolution mode aligns the corners to the resolution grid)
+                probs.append(f"x extent ({ext[0]:.3f}, {ext[2]:.3f}) is wider than the data ({lon.min():.3f} .. {lon.max():.3f}) plus two pixels on each side")
+            if np.ma.getmaskarray(ix).any() or np.ma.getmaskarray(iy).any():
+                probs.append("a data point does not map to a valid pixel of the frozen area")
+            if probs:
+                ctx.fail("DynamicAreaDefinition.freeze(antimeridian_mode)", "; ".join(probs[:3]), inp, {"extent": ext, "shape": [area.height, area.width]},
+                         tags={"amode": str(amode), "family": "wide-no-crossing"}, size=n)
+            ctx.case("wide", (str(amode), mode, str(value), container, float(lon.sum())), nontrivial=True, sample={"input": inp, "extent": ext})
+    # histories on one instance
+    for _ in range(8 if ctx.quick else 60):
+        dyn = DynamicAreaDefinition("d", "d", "EPSG:4326")
+        hist = []
+        for step in range(r.randrange(2, 5)):
+            crossing = r.random() < 0.5
+            n = r.randrange(4, 16)
+            if crossing:
+                lon = np.array([((180 + r.uniform(-8, 8)) + 180) % 360 - 180 for _ in range(n)])
+                lon[0], lon[1] = 179.5, -179.5
+            else:
+                lon = np.array([r.uniform(-10.0, 10.0) for _ in range(n)])
+            lat = np.array([r.uniform(-40, 50) for _ in range(n)])
+            amode = r.choice(["modify_crs", "modify_extents", None, "global_extents"])
+            kw = {"resolution": r.choice([0.5, 1.0])}
+            if amode is not None:
+                kw["antimeridian_mode"] = amode
+            hist.append({"crossing": crossing, "antimeridian_mode": amode, "resolution": kw["resolution"]})
+            try:
+                with warnings.catch_warnings():
+                    warnings.simplefilter("ignore")
+                    got = dyn.freeze((lon.reshape(1, n).copy(), lat.reshape(1, n).copy()), **kw)
+                    want = DynamicAreaDefinition("d", "d", "EPSG:4326").freeze((lon.reshape(1, n).copy(), lat.reshape(1, n).copy()), **kw)
+            except Exception as e:  # noqa
+                ctx.fail("DynamicAreaDefinition.freeze", f"raised {type(e).__name__}: {e} (history {hist})", {"history": hist}, size=len(hist))
+                break
+            same = (got.crs == want.crs and got.shape == want.shape and np.allclose(got.area_extent, want.area_extent, rtol=0, atol=1e-9))
+            if not same:
+                ctx.fail("DynamicAreaDefinition.freeze", f"freeze number {step + 1} on the same DynamicAreaDefinition differs from the freeze of a fresh one: CRS "
+                         f"{got.crs.to_dict()} vs {want.crs.to_dict()}, extent {[round(float(v), 4) for v in got.area_extent]} vs {[round(float(v), 4) for v in want.area_extent]}",
+                         {"history": hist}, tags={"family": "history"}, size=len(hist))
+                break
+        ctx.case("freeze-history", str(hist), nontrivial=len(hist) > 1)
+
+
 def suite_given(ctx):
     """explicitly given extent and shape are kept"""
     from pyresample.geometry import DynamicAreaDefinition
@@ -275,4 +350,5 @@ def run(ctx):
         lon, lat = kc.swath(r, 9, 9, r.uniform(-180, 180), 89.0, 6.0)
         check(ctx, "geographic", "EPSG:4326", lon, lat, r.choice(["numpy", "swath"]), "resolution", 0.5, "pole_inside")
     suite_antimeridian(ctx)
+    suite_wide_and_histories(ctx)
     suite_given(ctx)
